@@ -260,6 +260,32 @@ class World(object):
         return b
 
     def regpoints(self, cid):
+        """
+        The registry points "it implements or is built on", computed by the harness's OWN traversal of the
+        registration edges (not by dr.get_registry_points, which is code under test): for a datasource the
+        registry points among its transitive dependents; for anything else the registry points among its
+        transitive dependencies, not looking past a registry point.
+        """
+        comp = self.comps[cid]
+        if dr.is_registry_point(comp):
+            return [cid]
+        down = self.spec[cid]["kind"] != "datasource"
+        seen, out, todo = set(), set(), [comp]
+        while todo:
+            c = todo.pop()
+            nxt = dr.get_dependencies(c) if down else dr.get_dependents(c)
+            for d in nxt:
+                if d in seen:
+                    continue
+                seen.add(d)
+                if dr.is_registry_point(d):
+                    if d in self.ids:
+                        out.add(self.ids[d])
+                else:
+                    todo.append(d)
+        return sorted(out)
+
+    def live_regpoints(self, cid):
         return sorted(self.ids[p] for p in dr.get_registry_points(self.comps[cid]) if p in self.ids)
 
     # -- protocol
@@ -552,7 +578,7 @@ def rebuild(case):
     return world, seeds, graph
 
 
-def generic_replay(data, oracle):
+def generic_replay(data, oracle, observers=()):
     """rebuild the recorded world, run it in the recorded order, apply `oracle(report, world, run, case)`"""
     case = data["case"]
     print("replaying case with %d components, targets %s, order %s" % (len(case["spec"]), case.get("targets"), case.get("order")))
@@ -560,13 +586,17 @@ def generic_replay(data, oracle):
     order = None
     if case.get("order") is not None and not case.get("late"):
         order = [world.comps[i] for i in case["order"]]
-    r = evaluate(world, seeds, case.get("store_skips", False), graph, order=order, mode="run" if case.get("late") else "components")
+    r = evaluate(world, seeds, case.get("store_skips", False), graph, order=order, mode="run" if case.get("late") else "components",
+                 observers=observers)
     print("implementation:", r.text)
     found = []
 
     class Rep(object):
         def failure(self, desc, c, finding=None):
-            found.append((desc, finding))
+            if finding is None:          # instances of listed known findings are not violations
+                found.append((desc, finding))
+            else:
+                print("oracle (known finding %s): %s" % (finding, desc))
     oracle(Rep(), world, r, case)
     for d, f in found:
         print("oracle:", d, "(known finding %s)" % f if f else "")
